@@ -9,7 +9,20 @@ type mapSliceValue struct {
 	valueEmbed
 }
 
-// func (v mapSliceValue) Equal(o Value) bool     { return v.slice == o.Interface() }
+// Equal compares two ordered maps entry by entry.
+func (v mapSliceValue) Equal(o Value) bool {
+	other, ok := o.Interface().(yaml.MapSlice)
+	if !ok || len(other) != len(v.slice) {
+		return false
+	}
+	for i, item := range v.slice {
+		if !Equal(item.Key, other[i].Key) || !Equal(item.Value, other[i].Value) {
+			return false
+		}
+	}
+	return true
+}
+
 func (v mapSliceValue) Interface() any { return v.slice }
 
 func (v mapSliceValue) Contains(elem Value) bool {
